@@ -259,3 +259,73 @@ def check_case_c34(eoc, ops, recs):
                             detail="after refresh instance %d is %s expired=%s" % (i, cur[i], objs[i]["expired"]))
         prev = r
     return None
+
+
+# =============================================================================== C32
+FLUSH_ERRORS = ("err:IntegrityError", "err:StaleDataError")
+
+
+def check_case_c32(eoc, ops, recs):
+    """Direct oracle for C32 on single-class histories: a flush that failed with a database
+    error (IntegrityError / StaleDataError) while no SAVEPOINT was open
+
+    R1 leaves nothing pending: session.new and session.deleted are empty, no instance is
+       pending or deleted
+    R2 leaves the connection showing exactly the rows of the last commit (nothing of the
+       failed transaction is visible, let alone committed)
+    R3 leaves the session inactive until rollback(); rollback() then succeeds, ends the
+       transaction and reactivates the session
+    R4 every instance that was persistent at the last commit and has not been expunged since
+       is persistent again (same identity key) once rollback() has run
+    """
+    committed = []
+    committed_persistent = {}
+    pending_failure = False
+    failure_at = -2
+    prev = None
+    for j, (op, r) in enumerate(zip(ops, recs)):
+        if r is None:
+            return None
+        kind = op[0]
+        objs = r["objs"]
+        cur = [state_letter(o) for o in objs]
+        nested_before = prev["txn"][1] if prev else 0
+        if r["res"] in FLUSH_ERRORS and nested_before == 0 and (prev is None or prev["txn"][2]):
+            if r["new"] or r["deleted"] or "P" in cur:
+                return dict(i=j, check="R1", sig="pending-state-left-after-failed-flush",
+                            detail="after the failed flush: session.new=%s session.deleted=%s states=%s" % (r["new"], r["deleted"], "".join(cur)))
+            if r["db"] != committed:
+                return dict(i=j, check="R2", sig="rows-of-failed-transaction-visible",
+                            detail="after the failed flush the connection shows rows %s, last commit had %s" % (r["db"], committed))
+            if r["txn"][2]:
+                return dict(i=j, check="R3", sig="session-active-after-failed-flush", detail="session.is_active is True right after a failed flush")
+            pending_failure = True
+            failure_at = j
+        elif pending_failure and j != failure_at + 1:
+            # something else happened between the failed flush and rollback(): the application
+            # changed the session itself, the restoration claims below no longer apply as stated
+            pending_failure = False
+        elif pending_failure and kind == "rollback":
+            if r["res"] != "ok" or r["txn"][0] != 0 or not r["txn"][2]:
+                return dict(i=j, check="R3", sig="rollback-after-failed-flush-" + r["res"].replace("err:", ""),
+                            detail="rollback() after a failed flush: %s, transaction depth %d, is_active %s" % (r["res"], r["txn"][0], r["txn"][2]))
+            if r["db"] != committed:
+                return dict(i=j, check="R2", sig="rows-differ-after-rollback", detail="after rollback the connection shows %s, last commit had %s" % (r["db"], committed))
+            for i, k in committed_persistent.items():
+                if cur[i] != "S" or objs[i]["key"] != k:
+                    return dict(i=j, check="R4", sig="committed-instance-%s-after-rollback" % cur[i], obj=i,
+                                detail="instance %d was persistent with key %s at the last commit; after the failed flush + rollback it is %s with key %s" % (i, k, cur[i], objs[i]["key"]))
+            pending_failure = False
+        if r["res"] == "ok" and kind == "commit":
+            committed = list(r["db"])
+            committed_persistent = {i: o["key"] for i, o in enumerate(objs) if cur[i] == "S"}
+            pending_failure = False
+        elif kind in ("expunge", "expunge_all", "close", "mt", "mtd", "delete", "merge", "get", "query", "refresh", "setpk", "add") and not pending_failure:
+            # operations that legitimately change which instances the session holds / their keys
+            committed_persistent = {i: k for i, k in committed_persistent.items() if cur[i] == "S" and objs[i]["key"] == k}
+            if kind == "close":
+                committed = list(r["db"])
+        elif r["res"] == "ok" and kind == "rollback" and not pending_failure:
+            committed_persistent = {i: k for i, k in committed_persistent.items() if cur[i] == "S" and objs[i]["key"] == k}
+        prev = r
+    return None
